@@ -3,6 +3,7 @@ package yqlib
 import (
 	"container/list"
 	"fmt"
+	"math"
 	"sort"
 	"strconv"
 	"strings"
@@ -156,24 +157,34 @@ func (a sortableNodeArray) compare(lhs *CandidateNode, rhs *CandidateNode, dateT
 		}
 
 		return 1
-	} else if lhsTag == "!!int" && rhsTag == "!!int" {
-		_, lhsNum, err := parseInt64(lhs.Value)
-		if err != nil {
-			panic(err)
-		}
-		_, rhsNum, err := parseInt64(rhs.Value)
-		if err != nil {
-			panic(err)
-		}
-		return int(lhsNum - rhsNum)
 	} else if (lhsTag == "!!int" || lhsTag == "!!float") && (rhsTag == "!!int" || rhsTag == "!!float") {
-		lhsNum, err := strconv.ParseFloat(lhs.Value, 64)
-		if err != nil {
-			panic(err)
+		if lhsTag == "!!int" && rhsTag == "!!int" {
+			_, lhsNum, lhsErr := parseInt64(lhs.Value)
+			_, rhsNum, rhsErr := parseInt64(rhs.Value)
+			if lhsErr == nil && rhsErr == nil {
+				// not lhsNum - rhsNum: the difference of two int64 can overflow
+				if lhsNum < rhsNum {
+					return -1
+				} else if lhsNum > rhsNum {
+					return 1
+				}
+				return 0
+			}
 		}
-		rhsNum, err := strconv.ParseFloat(rhs.Value, 64)
-		if err != nil {
-			panic(err)
+		lhsNum, lhsErr := parseSortableNumber(lhs)
+		rhsNum, rhsErr := parseSortableNumber(rhs)
+		if lhsErr != nil || rhsErr != nil {
+			// a number we cannot read - order by text rather than panic
+			return strings.Compare(lhs.Value, rhs.Value)
+		}
+		if math.IsNaN(lhsNum) || math.IsNaN(rhsNum) {
+			// like jq, nan sorts before every other number
+			if math.IsNaN(lhsNum) && math.IsNaN(rhsNum) {
+				return 0
+			} else if math.IsNaN(lhsNum) {
+				return -1
+			}
+			return 1
 		}
 		if lhsNum == rhsNum {
 			return 0
@@ -185,4 +196,20 @@ func (a sortableNodeArray) compare(lhs *CandidateNode, rhs *CandidateNode, dateT
 	}
 
 	return strings.Compare(lhs.Value, rhs.Value)
+}
+
+// numbers may be spelled as hex / octal ints, or as yaml infinities
+func parseSortableNumber(node *CandidateNode) (float64, error) {
+	if _, intValue, err := parseInt64(node.Value); err == nil {
+		return float64(intValue), nil
+	}
+	switch strings.ToLower(node.Value) {
+	case ".inf", "+.inf":
+		return math.Inf(1), nil
+	case "-.inf":
+		return math.Inf(-1), nil
+	case ".nan":
+		return math.NaN(), nil
+	}
+	return strconv.ParseFloat(strings.ReplaceAll(node.Value, "_", ""), 64)
 }
